@@ -108,7 +108,8 @@ class UState:
 
 
 class USys:
-    def __init__(self, ctx, nhandles=2, keys=None, vals=None, label="U", headers=None):
+    def __init__(self, ctx, nhandles=2, keys=None, vals=None, label="U", headers=None, copy=False):
+        self.copy = copy  # UKVFile.copy_items as a read route (out of a handle) and a put route (into a handle)
         self.ctx = ctx
         self.headers = headers or list(HEADERS)
         self.nh = nhandles
@@ -128,8 +129,10 @@ class USys:
         self.ctx.violation(sig, what, {"layer": "U", "history": _hist_with(st, op), "nh": self.nh, "extra": extra})
 
     def _opclass(self, op):
-        if op[0] == "put":
-            return f"put[{KEYCLASS[op[2]]}]"
+        if op[0] in ("put", "copyin"):
+            return f"{op[0]}[{KEYCLASS[op[2]]}]"
+        if op[0] == "copyout":
+            return f"copyout[{op[2]}]"
         if op[0] in ("open", "create"):
             return f"{op[0]}[{op[2]}]"
         return op[0]
@@ -214,6 +217,17 @@ class USys:
             if st.hmode.get(n) is None:
                 ops.append(("put", n, "b", "x"))  # write through a closed handle: must fail
                 break
+        if self.copy:
+            for n in names:
+                m = st.hmode.get(n)
+                if m is None:
+                    continue
+                if st.model:
+                    for sel in ("all", "rev", "first", "into-prefilled"):
+                        ops.append(("copyout", n, sel))
+                for kn in self.keys:
+                    if len(KEYNAMES[kn]) <= 255 and (m == "a" or kn == self.keys[0]):
+                        ops.append(("copyin", n, kn))
         # exclusive creation of an existing file must fail and change nothing
         if not open_any:
             ops.append(("create", "hx", "x", "default"))
@@ -291,12 +305,101 @@ class USys:
                     ok = False
                 else:
                     st.model[key] = val
+        elif kind == "copyout":
+            ok = self._copyout(st, op, pre_bytes)
+        elif kind == "copyin":
+            _, name, kn = op
+            key = KEYNAMES[kn]
+            h = st.handles[name]
+            mode = st.hmode[name]
+            side_path = self.dir / "side.ukv"
+            if side_path.exists():
+                side_path.unlink()
+            sval = b"side:" + key[:8]
+            with UKVFile(side_path, mode="x", h2=b"the side file has its own, longer comment", b0=b"\x02\x03") as sf:
+                sf.put(b"zz-other", b"other")
+                sf.put(key, sval)
+                sf.put(b"zz-last", b"")
+            side = UKVFile(side_path, mode="r")
+            must_fail = mode != "a" or key in st.model
+            if must_fail:
+                pre_view = self.view(st)
+            try:
+                side.copy_items(h, [key])
+            except Exception as e:
+                if not must_fail:
+                    self.viol(st, op, "valid-copy-raised", f"copy_items of a new key into a writable handle raised {exc_name(e)}: {e}")
+                    ok = False
+                else:
+                    ok = self._unchanged(st, op, pre_bytes, pre_view)
+            else:
+                if must_fail:
+                    self.viol(st, op, "failing-op-succeeded", "copy_items that must fail (duplicate key / read-only handle) did not raise")
+                    ok = False
+                else:
+                    st.model[key] = sval
+            finally:
+                side.close()
         else:  # pragma: no cover
             raise HarnessError(f"unknown op {op}")
         st.hist.append(list(op))
         st.pending = True
         if ok:
             ok = self._check_views(st, op)
+        return ok
+
+    def _copyout(self, st, op, pre_bytes):
+        """copy_items out of an open handle into a fresh file with ANOTHER header layout; the destination is
+        checked through the same destination handle, then through a fresh reader and the independent parser"""
+        _, name, sel = op
+        h = st.handles[name]
+        src_before = self.file_bytes_flushed(st)
+        keys = sorted(st.model)
+        if sel == "rev":
+            keys = keys[::-1]
+        elif sel == "first":
+            keys = keys[:1]
+        dpath = self.dir / "dest.ukv"
+        if dpath.exists():
+            dpath.unlink()
+        exp = {k: st.model[k] for k in keys}
+        ok = True
+        dest = UKVFile(dpath, mode="x", h2=b"destination with a comment of its own", b0=b"\x09")
+        try:
+            if sel == "into-prefilled":
+                dest.put(b"zz-pre", b"prefilled")
+                exp[b"zz-pre"] = b"prefilled"
+            try:
+                h.copy_items(dest, keys)
+            except Exception as e:
+                self.viol(st, op, "copy-raised", f"copy_items into a fresh file raised {exc_name(e)}: {e}")
+                return False
+            for stage in ("same-handle", "reopened"):
+                if stage == "reopened":
+                    dest.close()
+                    dest.open("r")
+                try:
+                    got = {k: dest.get(k) for k in dest.keys()}
+                    its = dict(dest.items())
+                except Exception as e:
+                    self.viol(st, op, f"destination-read-raised[{stage}]", f"reading the destination raised {exc_name(e)}: {e}")
+                    ok = False
+                    break
+                if got != exp or its != exp:
+                    self.viol(st, op, f"destination-differs[{stage}]", "the destination of copy_items does not hold exactly the copied records with their values")
+                    ok = False
+                    break
+        finally:
+            if not dest.closed:
+                dest.close()
+        if ok:
+            recs, _, clean = parse_ukv(dpath.read_bytes())
+            if not clean or dict(recs) != exp or len(recs) != len(exp):
+                self.viol(st, op, "destination-file-differs", "the destination file does not parse as header|exactly the copied records")
+                ok = False
+        if self.file_bytes_flushed(st) != src_before:
+            self.viol(st, op, "source-changed", "copying out of a handle changed the source file")
+            ok = False
         return ok
 
     def _unchanged(self, st, op, pre_bytes, pre_view):
@@ -1046,6 +1149,9 @@ def run(ctx):
     layer("U_reduced_alphabet_depth", lambda c: USys(c, nhandles=3 if thorough else 2, keys=red_keys, vals=red_vals, label="U3", headers=["default", "h2only"]), 8 if thorough else 9)
     ctx.bound["U_reduced_alphabet_handles"] = 3 if thorough else 2
 
+    # copy_items: a read route out of any open handle and a put route into a writable one
+    layer("U_copy_items_depth", lambda c: USys(c, nhandles=2, keys=["a", "bin", "empty", "k255"], vals={"x": b"x", "e": b""}, label="U4", headers=["default", "custom"], copy=True), 6 if thorough else 5)
+
     # ---- layer C -------------------------------------------------------------------------------
     ckeys = rot(["a", "b", "empty", "k256", "u2", "u1"]) if not thorough else rot(list(CKEYS))
     cvals = {"e": b"", "x": b"x", "yy": b"yy"} if not thorough else vals
@@ -1070,7 +1176,7 @@ def run(ctx):
 
 def replay(ctx, case):
     if case["layer"] == "U":
-        sm = USys(ctx, nhandles=case.get("nh", 2), keys=list(KEYNAMES), vals={**values(ctx), "big70k": big_value(ctx.seed)}, label="replay")
+        sm = USys(ctx, nhandles=case.get("nh", 2), keys=list(KEYNAMES), vals={**values(ctx), "big70k": big_value(ctx.seed)}, label="replay", copy=True)
     else:
         sm = CSys(ctx, nhandles=case.get("nh", 2), keys=list(CKEYS), vals={**values(ctx), "big70k": big_value(ctx.seed)}, label="replay", bystander=True)
     hist = [tuple(o) for o in case["history"]]
